@@ -72,7 +72,9 @@ func (ms *memstore) GetBucketMeta(baseUrl HttpBaseUrl, bucket string) (*storage.
 func (ms *memstore) Get(baseUrl HttpBaseUrl, bucket string, filename string) (*storage.Object, []byte, error) {
 	f := ms.find(bucket, filename)
 	if f != nil {
-		return &f.meta, f.data, nil
+		meta := f.meta
+		meta.Metadata = cloneMetadata(f.meta.Metadata)
+		return &meta, f.data, nil
 	}
 	return nil, nil, nil
 }
@@ -81,6 +83,7 @@ func (ms *memstore) GetMeta(baseUrl HttpBaseUrl, bucket string, filename string)
 	f := ms.find(bucket, filename)
 	if f != nil {
 		meta := f.meta
+		meta.Metadata = cloneMetadata(f.meta.Metadata)
 		InitMetaWithUrls(baseUrl, &meta, bucket, filename, uint64(len(f.data)))
 		return &meta, nil
 	}
@@ -104,8 +107,10 @@ func (ms *memstore) Add(bucket string, filename string, contents []byte, meta *s
 	b := ms.getBucket(bucket)
 	b.mu.Lock()
 	defer b.mu.Unlock()
+	stored := *meta
+	stored.Metadata = cloneMetadata(meta.Metadata)
 	b.files.ReplaceOrInsert(&memFile{
-		meta: *meta,
+		meta: stored,
 		data: contents,
 	})
 	return nil
@@ -123,8 +128,10 @@ func (ms *memstore) UpdateMeta(bucket string, filename string, meta *storage.Obj
 	b := ms.getBucket(bucket)
 	b.mu.Lock()
 	defer b.mu.Unlock()
+	stored := *meta
+	stored.Metadata = cloneMetadata(meta.Metadata)
 	b.files.ReplaceOrInsert(&memFile{
-		meta: *meta,
+		meta: stored,
 		data: f.data,
 	})
 	return nil
@@ -209,4 +216,17 @@ func (ms *memstore) find(bucket string, filename string) *memFile {
 		}
 	}
 	return nil
+}
+
+// cloneMetadata copies a user-metadata map, so that the stored object never shares it with a caller, with an
+// object handed out earlier, or with a copy of the object.
+func cloneMetadata(m map[string]string) map[string]string {
+	if m == nil {
+		return nil
+	}
+	c := make(map[string]string, len(m))
+	for k, v := range m {
+		c[k] = v
+	}
+	return c
 }
